@@ -58,6 +58,30 @@ def oracle(tier):
             fails.append({'cause': 'oracle', 'clause': 'sql note text has no single quote',
                           'input': {'kind': 'note-text', 'text_hex': hexs(t)}, 'got': hexs(o)})
             break
+    # SQL: expression text is passed through verbatim inside parentheses (stand-alone, as a column default, as an index subject)
+    from pydbml.classes import Expression, Column, Table, Index
+    for t in all_strings(['a', '(', ')', ' ', '*', "'"], 5 if tier == 'quick' else 6):
+        if not t:
+            continue
+        n += 1
+        bad = None
+        o = Expression(t).sql
+        if o != '(' + t + ')':
+            bad = ('Expression.sql', o)
+        else:
+            col = Column('c', 'int', default=Expression(t))
+            tb = Table('t', columns=[col])
+            tb.add_index(Index([Expression(t)]))
+            o2 = col.sql
+            o3 = tb.indexes[0].sql
+            if 'DEFAULT (' + t + ')' not in o2:
+                bad = ('column default', o2)
+            elif '((' + t + '))' not in o3:
+                bad = ('index subject', o3)
+        if bad:
+            fails.append({'cause': 'oracle', 'clause': 'sql expression text verbatim inside parentheses (%s)' % bad[0],
+                          'input': {'kind': 'expression-text', 'text_hex': hexs(t), 'text': t}, 'got': hexs(bad[1])})
+            break
     return fails, {'oracle_inputs': n, 'oracle_distinct_nontrivial': len(nontriv)}
 
 
